@@ -8,6 +8,7 @@ failure as a regular line; the model is of the repaired code, whose `comment_bod
 parked error.)
 -/
 import Flussab.Proof.Btor2ParserSafe
+import Flussab.Proof.Btor2Prefix
 
 namespace Flussab.C04
 open Flussab Flussab.Btor2 PM
@@ -38,6 +39,35 @@ theorem btor2_fault_syntax_before_end (b : VBytes) (hsize : b.length < 2 ^ 63) (
   obtain ⟨h1, _⟩ := driveLines_ok (b.length + 2) [] (LR.init b true) hinv hlen
   exact (h1 _ hs).2.2 rfl
 
+/-- **`btor2_fault_prefix`**: the lines handed out before the error of a FAILING source that delivered
+the bytes `b` are the first lines of the fault-free parse of ANY extension `b ++ more` of those bytes
+— in particular of the complete file the source was reading.  Every line a consumer received before
+the I/O error is a line of the real document, unchanged (F10 was the counter-example: a comment cut
+by the failure).  (`2^62`: line and byte counters cannot overflow.) -/
+theorem btor2_fault_prefix (b more : VBytes) (hsize : (b ++ more).length < 2 ^ 62) :
+    (parseAll (LR.init b true)).1 <+: (parseAll (LR.init (b ++ more) false)).1 := by
+  have hb : b.length < 2 ^ 63 := by simp only [List.length_append] at hsize; omega
+  have hbm : (b ++ more).length < 2 ^ 63 := by omega
+  have := driveLines_prefix b more hsize ((LR.init b true).v.rest.length + 2)
+    ((LR.init (b ++ more) false).v.rest.length + 2) [] (LR.init b true) (LR.init (b ++ more) false)
+    (inv_init b true (SizeOK.of_lt hb)) (inv_init (b ++ more) false (SizeOK.of_lt hbm)) rfl (by omega)
+  unfold parseAll
+  rcases hA : driveLines ((LR.init b true).v.rest.length + 2) [] (LR.init b true) with ⟨ia, fa, la⟩
+  rcases hB : driveLines ((LR.init (b ++ more) false).v.rest.length + 2) [] (LR.init (b ++ more) false)
+    with ⟨ib, fb, lb⟩
+  rw [hA, hB] at this
+  exact this
+
+/-- Together with `btor2_fault_final`: over a failing source the parse ends in `io` or a syntax
+error, and what it handed out before is a prefix of the fault-free run over the full data. -/
+theorem btor2_fault_outcome (b more : VBytes) (hsize : (b ++ more).length < 2 ^ 62) :
+    (parseAll (LR.init b true)).2 ≠ none ∧
+    (parseAll (LR.init b true)).1 <+: (parseAll (LR.init (b ++ more) false)).1 := by
+  have hb : b.length < 2 ^ 63 := by simp only [List.length_append] at hsize; omega
+  refine ⟨fun h => ?_, btor2_fault_prefix b more hsize⟩
+  have := (btor2_fault_final b true hb).1 h
+  exact absurd this (by simp)
+
 /-- Non-vacuity / regression for F10: the source fails inside a trailing comment — the outcome
 is `io` and no line is handed out; the same bytes from a source that ends normally give the line. -/
 example :
@@ -46,6 +76,18 @@ example :
       = ([], some .io) ∧
     (parseAll (LR.init [49, 32, 115, 111, 114, 116, 32, 98, 105, 116, 118, 101, 99, 32, 49, 32, 59, 32, 116, 114] false))
       = ([.node { id := 1, variant := .sort (.bitVec 1), comment := some [32, 116, 114] }], none) := by
+  decide +kernel
+
+/-- Non-vacuity of the prefix theorem: `"1 sort bitvec 1\n; tr"` from a failing source hands out
+the sort line and then fails; the extension `"…unc\n2 input 1\n"` parses to three lines of which
+that is the first. -/
+example :
+    (parseAll (LR.init [49, 32, 115, 111, 114, 116, 32, 98, 105, 116, 118, 101, 99, 32, 49, 10, 59, 32, 116, 114] true))
+      = ([.node { id := 1, variant := .sort (.bitVec 1) }], some .io) ∧
+    (parseAll (LR.init ([49, 32, 115, 111, 114, 116, 32, 98, 105, 116, 118, 101, 99, 32, 49, 10, 59, 32, 116, 114] ++
+      [117, 110, 99, 10, 50, 32, 105, 110, 112, 117, 116, 32, 49, 10]) false)).1
+      = [.node { id := 1, variant := .sort (.bitVec 1) }, .comment [32, 116, 114, 117, 110, 99],
+         .node { id := 2, variant := .value 1 .input }] := by
   decide +kernel
 
 end Flussab.C04
